@@ -31,6 +31,7 @@ def run(ctx):
     ctx.each(flowalg.duration_rule, ctx, repo, "R05h")
     ctx.each(flowalg.flush_formula_rule, ctx, repo, "R05i")
     ctx.each(r05k, ctx, repo)
+    ctx.each(flowalg.share_rule, ctx, repo, "R05m")  # a junction inside a duration group passes every keyring row on in full: the share algebra per row
     ctx.each(flowalg.kind_dispatch_rule, ctx, repo, "R05l")
     ctx.each(discretise.snap_tolerance_rule, ctx, repo, "R05j", [("model", _row_count_helper(repo))])
 
